@@ -62,6 +62,7 @@ def _make_disciplines(cfg, counter):
 
     v = cfg["variant"]
     nx = cfg["nx"]
+    G = cfg.get("gname", "g")  # (a name whose ASCII order relative to "f" differs from its case-insensitive order)
 
     class Base(Discipline):
         def __init__(self, name, ins, outs):
@@ -111,33 +112,33 @@ def _make_disciplines(cfg, counter):
 
     class D3(Base):
         def __init__(self):
-            super().__init__("D3", ["x", "y1", "y2"], ["f", "g"])
+            super().__init__("D3", ["x", "y1", "y2"], ["f", G])
 
         def compute(self, d):
             return {"f": (d["y1"] - 1) ** 2 + (d["y2"] + 0.5) ** 2 + 0.1 * v * d["x"][-1:] ** 2,
-                    "g": d["y1"] + d["y2"] - 1.0}
+                    G: d["y1"] + d["y2"] - 1.0}
 
         def partials(self, d):
             dx = [0.0] * (nx - 1) + [0.2 * v * float(d["x"][-1])]
             return {
                 "f": {"x": atleast_2d(dx), "y1": atleast_2d(2 * (d["y1"] - 1)), "y2": atleast_2d(2 * (d["y2"] + 0.5))},
-                "g": {"x": atleast_2d([0.0] * nx), "y1": atleast_2d([1.0]), "y2": atleast_2d([1.0])},
+                G: {"x": atleast_2d([0.0] * nx), "y1": atleast_2d([1.0]), "y2": atleast_2d([1.0])},
             }
 
     class DSingle(Base):
         def __init__(self):
-            super().__init__("D", ["x"], ["f", "g"])
+            super().__init__("D", ["x"], ["f", G])
 
         def compute(self, d):
             x = d["x"]
             s = float(x @ x)
-            return {"f": array([(x[0] - 1) ** 2 + (1 + v) * (s - x[0] ** 2) + 0.5 * x[0]]), "g": array([float(x.sum()) - 1.0])}
+            return {"f": array([(x[0] - 1) ** 2 + (1 + v) * (s - x[0] ** 2) + 0.5 * x[0]]), G: array([float(x.sum()) - 1.0])}
 
         def partials(self, d):
             x = d["x"]
             df = 2 * (1 + v) * x
             df[0] = 2 * (x[0] - 1) + 0.5
-            return {"f": {"x": atleast_2d(df)}, "g": {"x": atleast_2d([1.0] * nx)}}
+            return {"f": {"x": atleast_2d(df)}, G: {"x": atleast_2d([1.0] * nx)}}
 
     class DF(Base):
         def __init__(self):
@@ -151,13 +152,13 @@ def _make_disciplines(cfg, counter):
 
     class DG(Base):
         def __init__(self):
-            super().__init__("DG", ["x"], ["g"])
+            super().__init__("DG", ["x"], [G])
 
         def compute(self, d):
-            return {"g": DSingle.compute(self, d)["g"]}
+            return {G: DSingle.compute(self, d)[G]}
 
         def partials(self, d):
-            return {"g": DSingle.partials(self, d)["g"]}
+            return {G: DSingle.partials(self, d)[G]}
 
     if cfg["formulation"] == "MDF":
         return [D1(), D2(), D3()]
@@ -201,7 +202,7 @@ def build(cfg, path, counter, load):
             kw["main_mda_settings"].update(n_processes=cfg["mda_workers"], use_threading=True)
     sc = create_scenario(discs, "f", ds, formulation_name=cfg["formulation"], scenario_type=cfg["kind"], **kw)
     if cfg["constrained"]:
-        sc.add_constraint("g", constraint_type="ineq")
+        sc.add_constraint(cfg.get("gname", "g"), constraint_type="ineq")
     if cfg.get("observable") and cfg["formulation"] == "IDF":
         sc.add_observable("o")
     sc.set_optimization_history_backup(
@@ -376,6 +377,7 @@ def draw_config(t):
         "nx": t.randint(1, 2, "nx"), "variant": t.choice(3, "variant"),
     }
     cfg["observable"] = formulation == "IDF" and t.flag(0.5, "observable")
+    cfg["gname"] = "G" if t.flag(0.3, "mixed_case_names") else "g"
     mode = t.weighted([3, 3, 1], "backup_mode")
     cfg["each_call"] = mode in (0, 2)
     cfg["each_iter"] = mode in (1, 2)
@@ -545,9 +547,9 @@ def check_restart(ctx, cfg, ref, rr, image, crash_path, all_names, sig_base, bud
             if "f" not in od:
                 continue
             if cfg["constrained"]:
-                if "g" not in od:
+                if cfg.get("gname", "g") not in od:
                     continue
-                g = [float(v) for v in od["g"][3]]
+                g = [float(v) for v in od[cfg.get("gname", "g")][3]]
                 if max(g) > 1e-4:  # default ineq tolerance of the drivers
                     continue
             feas.append(float(od["f"][3][0]))
